@@ -27,6 +27,7 @@ RULE = (
     "updates (or was rejected, which is itself the violation); time-dependent trees are additionally put through a fixed evaluation "
     "history (repeated times, coordinates rewritten in place, fresh buffers); equality is checked as structural in both directions over the same operand objects; distinct = distinct tree digests"
 )
+LIFECYCLES = {}  # shared object life cycles (scen.add_lifecycles) with their default rates
 BUDGET = {"quick": {"runs": 500, "chunk": 10}, "thorough": {"runs": 60000, "chunk": 20}}
 COMPONENTS = {"real": ["tdgl.Parameter / CompositeParameter (operators, caching, _clear_cache, pickling)", "tdgl.sources.*", "TDGLSolver (evaluation per step, cache clearing)", "Solution save/reload of the parameter"], "stub": ["wall clock"]}
 ASSUMPTIONS = ["Only the part of C16 a run can exhibit is decided: the algebra over all expression trees and argument shapes is an input-space statement (DESIGN.md C16)."]
